@@ -60,8 +60,8 @@ CHECKS = {
     "C17": ("exploration", "brute-force nearest-element oracle beside get_closest/digitize_data",
             "Every probed value maps to a float-nearest grid element; idempotence; column-wise grids.",
             "distance judged as computed in float64", "DESIGN 4/C17"),
-    "C18": ("exploration", "monitor on samplers_id_table after every operation + plotting helper and restore on every checkpoint the calibrator writes",
-            "Table only grows; every row's id maps to the class that produced it; helper and restore return the same names.",
+    "C18": ("exploration", "monitor on samplers_id_table after every operation + plotting helper and restore on every checkpoint the calibrator writes + read-back of the legends drawn by the real plotting functions (Agg)",
+            "Table only grows; every row's id maps to the class that produced it; helper and restore return the same names; every legend entry of plot_sampling / plot_convergence / plot_sampling_batch_nums names the class its handle stands for.",
             "sampler classes identified by class name", "DESIGN 4/C18"),
     "C19": ("exploration", "step-by-step reference of the bandit update and reward rules beside the real agent/environment",
             "Q, counts, rewards, reference best and policy validity on generated sequences; twin agents make equal choices.",
